@@ -21,6 +21,10 @@ func (e StdEng) argmaxDenseTensor(t DenseTensor, axis int) (retVal *Dense, err e
 		return nil, errors.Errorf(dimMismatch, len(t.Shape()), axis)
 	}
 
+	if v, ok := t.(View); ok && axis == AllAxes && v.IsMaterializable() {
+		// the flat kernels scan raw storage: give them the logical (row-major) content of a view
+		t = v.Materialize().(DenseTensor)
+	}
 	dataA := t.hdr()
 	typ := t.rtype()
 
@@ -108,6 +112,10 @@ func (e StdEng) argminDenseTensor(t DenseTensor, axis int) (retVal *Dense, err e
 		return nil, errors.Errorf(dimMismatch, len(t.Shape()), axis)
 	}
 
+	if v, ok := t.(View); ok && axis == AllAxes && v.IsMaterializable() {
+		// the flat kernels scan raw storage: give them the logical (row-major) content of a view
+		t = v.Materialize().(DenseTensor)
+	}
 	dataA := t.hdr()
 	typ := t.rtype()
 
